@@ -1125,6 +1125,10 @@ class Summariser:
         c = self.fi.cls
         return c is not None and any(b in ("io.BytesIO", "BytesIO") for b in c.bases)
 
+    def inline_env(self, st):
+        """Names every inlined callee sees besides its own parameters (none for ordinary functions)."""
+        return {}
+
     def inline(self, fi, args, kws, node, st, bound=False):
         if fi is None or st.depth >= self.inline_depth:
             return None
@@ -1135,7 +1139,7 @@ class Summariser:
         elif names and names[0] == "self" and not bound:
             return None
         sub = st.fork()
-        sub.env = {}
+        sub.env = dict(self.inline_env(st))
         for nm, v in zip(names, args):
             sub.env[nm] = v
         for k, v in kws:
